@@ -81,17 +81,71 @@ def predefined (n : Str) : Bool := Gen.predefinedGates.contains n || Gen.qiskitG
 /-- `command[0] in self.gate_names` -/
 def isGateName (defs : List GateDef) (n : Str) : Bool := predefined n || defs.any (·.name == n)
 
+/-- a qubit operand repeated in one statement (`len(set(gate_regs)) != len(gate_regs)`) -/
+def strDup : List Str → Bool
+  | [] => false
+  | x :: xs => xs.contains x || strDup xs
+
+/-- the power operator occurs in the expression -/
+def hasPow : Expr → Bool
+  | .pow .. => true
+  | .neg e => hasPow e
+  | .fn _ e => hasPow e
+  | .add a b | .sub a b | .mul a b | .div a b => hasPow a || hasPow b
+  | _ => false
+
+/-- an identifier other than `pi` and the formal parameters occurs (a function name counts) -/
+def foreignId (params : List Str) : Expr → Bool
+  | .id s => !params.contains s
+  | .fn .. => true
+  | .neg e => foreignId params e
+  | .add a b | .sub a b | .mul a b | .div a b | .pow a b => foreignId params a || foreignId params b
+  | _ => false
+
+def sigOf (n : Str) : Option (Nat × Nat) :=
+  match Gen.gateSignatures with
+  | some t => (t.find? (fun e => e.1 == n)).map (·.2)
+  | none => none
+
+/-- numbers of parameters and qubits `_check_body_call` expects of the called gate: `_GATE_SIGNATURES`, else
+the stored definition -/
+def expectedSig (defs : List GateDef) (n : Str) : Option (Nat × Nat) :=
+  match sigOf n with
+  | some sg => some sg
+  | none =>
+    if predefined n then some (3, 1)     -- the placeholder `QasmGate("U", [alpha, beta, gamma], ["q"])`
+    else (defs.find? (fun d => d.name == n)).map fun d => (d.params.length, d.qargs.length)
+
+/-- `_check_body_call` (repaired variant `Gen.bodyChecked`): the exception it raises for one statement
+`n(ps) qs` of the body of a gate with formals `params` / `qargs`, if any -/
+def bodyCheck (defs : List GateDef) (params qargs : List Str) (n : Str) (ps : List Expr) (qs : List Str) :
+    Option Err :=
+  if !(qs.all qargs.contains) then some .value
+  else if strDup qs then some .value
+  else
+    match expectedSig defs n with
+    | none => some .key
+    | some (np, nq) =>
+      if ¬ (ps.length = np ∧ qs.length = nq) then some .value
+      else ps.findSome? fun e =>
+        if hasPow e then some .notImpl else if foreignId params e then some .name else none
+
 /-- body of a gate definition as `_initialize_pass` stores it: known gates kept, `barrier`
 skipped, anything else refused -/
-def bodyPass (defs : List GateDef) (qargs : List Str) : List GOp → Except Err (List GOp)
+def bodyPass (defs : List GateDef) (params qargs : List Str) : List GOp → Except Err (List GOp)
   | [] => .ok []
   | g :: gs =>
+    let chk (n : Str) (ps : List Expr) (qs : List Str) : Except Err (List GOp) :=
+      match (if Gen.bodyChecked then bodyCheck defs params qargs n ps qs else none) with
+      | some e => .error e
+      | none => (bodyPass defs params qargs gs).map (g :: ·)
     match g with
     | .barrier qs =>
       -- repaired variant: the operands of a barrier must be formal qubits of the gate
-      if Gen.barrierChecked && !(qs.all qargs.contains) then .error .value else bodyPass defs qargs gs
-    | .U .. | .CX .. => (bodyPass defs qargs gs).map (g :: ·)
-    | .call n _ _ => if isGateName defs n then (bodyPass defs qargs gs).map (g :: ·) else .error .syntax
+      if Gen.barrierChecked && !(qs.all qargs.contains) then .error .value else bodyPass defs params qargs gs
+    | .U a b l x => chk cs!"U" [a, b, l] [x]
+    | .CX a b => chk cs!"CX" [] [a, b]
+    | .call n ps qs => if isGateName defs n then chk n ps qs else .error .syntax
 
 /-- `_initialize_pass` -/
 def initPass : List Stmt → Init → Except Err Init
@@ -101,7 +155,7 @@ def initPass : List Stmt → Init → Except Err Init
     | .qreg n k => initPass ss { st with qregs := (n, st.nq, k) :: st.qregs, nq := st.nq + k }
     | .creg n k => initPass ss { st with cregs := (n, st.nc, k) :: st.cregs, nc := st.nc + k }
     | .gate d =>
-      match bodyPass st.defs d.qargs d.body with
+      match bodyPass st.defs d.params d.qargs d.body with
       | .error e => .error e
       | .ok b =>
         -- original code: a body without any gate statement is refused as an "opaque" gate
@@ -179,13 +233,6 @@ def regSet (st : Init) (args : List Arg) : Except Err (List (List Nat)) :=
 
 /-! ## parameter expressions (`_eval_param`) -/
 
-def hasPow : Expr → Bool
-  | .pow .. => true
-  | .neg e => hasPow e
-  | .fn _ e => hasPow e
-  | .add a b | .sub a b | .mul a b | .div a b => hasPow a || hasPow b
-  | _ => false
-
 def hasName : Expr → Bool
   | .id _ => true
   | .fn .. => true
@@ -219,11 +266,6 @@ def evalParams : List Expr → Except Err (List Expr)
       | .ok vs => .ok (v :: vs)
 
 /-! ## predefined gates (`_add_predefined_gates`, `_add_qiskit_gates`) -/
-
-def sigOf (n : Str) : Option (Nat × Nat) :=
-  match Gen.gateSignatures with
-  | some t => (t.find? (fun e => e.1 == n)).map (·.2)
-  | none => none
 
 /-- `_check_arity` against `_GATE_SIGNATURES` (no entry: no check) -/
 def sigOk (name : Str) (np nq : Nat) : Bool :=
